@@ -462,7 +462,8 @@ def compare(ctx, key, tr, r0, r1, haz, info, obsname, P):
                 return False
             if tr.kind == "relabel":
                 A = A[:, tr.perm]
-            scale = max(float(np.nanmax(np.abs(A))), 1e-300)
+            # w_l / w-hat_l vanish identically for odd l (values of 1e-18): their natural magnitude, not the round-off, sets the scale
+            scale = max(float(np.nanmax(np.abs(A))), {"w": 1e-5, "wcap": 1e-2}.get(name, 0.0), 1e-300)
             bad = ~(np.abs(A - B) <= 1e-8 * scale) & ~(np.isnan(A) & np.isnan(B))
             if bad.any() and dep is not None:
                 # a particle whose neighbour selection (own, or of a neighbour for coarse-grained values) is a tie may legitimately change
@@ -609,6 +610,9 @@ def build_tasks(ctx):
     # --- open clusters: rotations
     add("open3:150", "boo3", ["rotate", "relabel"], nn=12, l=6)
     add("open3:150", "boo3", ["rotate"], nn=10, l=4)
+    add("open3:150", "boo3", ["rotate", "relabel"], nn=12, l=5)       # odd degrees: the antisymmetry of the 3-j symbol makes w_l vanish
+    add("open3:150", "boo3", ["rotate"], nn=9, l=3)
+    add("unary", "boo3", ["translate", "axes"], nn=12, l=7)
     add("open3:150", "tetra", ["rotate", "relabel"])
     add("open3:150", "nn", ["rotate"], nn=8)
     add("open2:200", "boo2", ["rotate", "relabel"], nn=6, l=6)
